@@ -10,6 +10,7 @@ import GFO.Model.Init
 import GFO.Model.Tracker
 import GFO.Model.Smbo
 import GFO.Model.Local
+import GFO.Model.GridBackend
 open GFO GFO.Proto
 
 /-- one recorded backend interaction of the real run -/
@@ -22,6 +23,7 @@ deriving Inhabited
 structure Script where
   queue : List Item := []
   loc : Option (LocalCfg × Local) := none       -- when present: the COMPLETE backend model (GFO.Model.Local) is driven instead
+  grid : Option (GridCfg × GridSt) := none      -- when present: the complete grid search model (GFO.Model.GridBackend)
 deriving Inhabited
 
 def Script.raisesNow (s : Script) : Bool := match s.queue with
@@ -48,23 +50,36 @@ def scriptedOnly : Backend Script where
 def liftLocal {α : Type} (s : Script) (cfg : LocalCfg) (r : Except Err (α × Local)) : Except Err (α × Script) :=
   r.map (fun x => (x.1, { s with loc := some (cfg, x.2) }))
 
-/-- the backend the driver model is run with: the complete model when one is loaded, the scripted replay otherwise -/
+def liftGrid {α : Type} (s : Script) (cfg : GridCfg) (r : Except Err (α × GridSt)) : Except Err (α × Script) :=
+  r.map (fun x => (x.1, { s with grid := some (cfg, x.2) }))
+
+/-- the backend the driver model is run with: a complete model when one is loaded, the scripted replay otherwise -/
 def scripted : Backend Script where
-  initPos s := match s.loc with
-    | some (cfg, l) => liftLocal s cfg ((localBackend cfg).initPos l)
-    | none => scriptedOnly.initPos s
-  iterate s := match s.loc with
-    | some (cfg, l) => liftLocal s cfg ((localBackend cfg).iterate l)
-    | none => scriptedOnly.iterate s
-  evalInit s x := match s.loc with
-    | some (cfg, l) => ((localBackend cfg).evalInit l x).map (fun l' => { s with loc := some (cfg, l') })
-    | none => scriptedOnly.evalInit s x
-  evaluate s x := match s.loc with
-    | some (cfg, l) => ((localBackend cfg).evaluate l x).map (fun l' => { s with loc := some (cfg, l') })
-    | none => scriptedOnly.evaluate s x
-  finishInit s := match s.loc with
-    | some (cfg, l) => ((localBackend cfg).finishInit l).map (fun l' => { s with loc := some (cfg, l') })
-    | none => scriptedOnly.finishInit s
+  initPos s := match s.loc, s.grid with
+    | some (cfg, l), _ => liftLocal s cfg ((localBackend cfg).initPos l)
+    | none, some (cfg, g) => liftGrid s cfg ((gridBackend cfg).initPos g)
+    | none, none => scriptedOnly.initPos s
+  iterate s := match s.loc, s.grid with
+    | some (cfg, l), _ => liftLocal s cfg ((localBackend cfg).iterate l)
+    | none, some (cfg, g) => liftGrid s cfg ((gridBackend cfg).iterate g)
+    | none, none => scriptedOnly.iterate s
+  evalInit s x := match s.loc, s.grid with
+    | some (cfg, l), _ => ((localBackend cfg).evalInit l x).map (fun l' => { s with loc := some (cfg, l') })
+    | none, some (cfg, g) => ((gridBackend cfg).evalInit g x).map (fun g' => { s with grid := some (cfg, g') })
+    | none, none => scriptedOnly.evalInit s x
+  evaluate s x := match s.loc, s.grid with
+    | some (cfg, l), _ => ((localBackend cfg).evaluate l x).map (fun l' => { s with loc := some (cfg, l') })
+    | none, some (cfg, g) => ((gridBackend cfg).evaluate g x).map (fun g' => { s with grid := some (cfg, g') })
+    | none, none => scriptedOnly.evaluate s x
+  finishInit s := match s.loc, s.grid with
+    | some (cfg, l), _ => ((localBackend cfg).finishInit l).map (fun l' => { s with loc := some (cfg, l') })
+    | none, some (cfg, g) => ((gridBackend cfg).finishInit g).map (fun g' => { s with grid := some (cfg, g') })
+    | none, none => scriptedOnly.finishInit s
+
+def showTracker (t : Tracker) : String :=
+  s!"new={showOpt showPos t.posNew}:{showF t.scoreNew} cur={showOpt showPos t.posCurrent}:{showF t.scoreCurrent} " ++
+  s!"best={showOpt showPos t.posBest}:{showF t.scoreBest} valid={showList (fun e => showOpt showPos e.1 ++ ":" ++ showF e.2) (t.positionsValid.zip t.scoresValid)} " ++
+  s!"nthTrial={t.nthTrial} nthInit={t.nthInit}"
 
 structure M where
   sp : Space := { names := [], dims := [] }
@@ -241,9 +256,28 @@ def exec (m : M) (cmd : String) : P (M × List String) := do
       | "f" => do let p ← pN nd pInt; let b ← pBool; pure (Draw.feas p b)
       | "a" => do let pa ← pF; let r ← pRat; pure (Draw.accept pa r)
       | k => throw s!"draw? {k}"
-    match m.d.bst.loc with
-    | some (cfg, l) => pure ({ m with d := { m.d with bst := { m.d.bst with loc := some (cfg, { l with tape := l.tape ++ [e] }) } } }, [])
-    | none => throw "no local backend"
+    match m.d.bst.loc, m.d.bst.grid with
+    | some (cfg, l), _ => pure ({ m with d := { m.d with bst := { m.d.bst with loc := some (cfg, { l with tape := l.tape ++ [e] }) } } }, [])
+    | none, some (cfg, g) => pure ({ m with d := { m.d with bst := { m.d.bst with grid := some (cfg, { g with tape := g.tape ++ [e] }) } } }, [])
+    | none, none => throw "no complete backend"
+  | "gnew" => do
+    let nInits ← pNat
+    let dirTok ← tok
+    let step ← pNat
+    let dirStart ← pNat
+    let initL ← pList (pN m.sp.dims.length pInt)
+    let dir : GridDir ← match dirTok with
+      | "diagonal" => pure GridDir.diagonal
+      | "orthogonal" => pure GridDir.orthogonal
+      | k => throw s!"direction? {k}"
+    let cfg : GridCfg := { dir := dir, stepSize := step, dims := m.sp.sizes, dirStart := dirStart, geo := m.sp.geo }
+    pure ({ m with d := { nInits := nInits, bst := { grid := some (cfg, { initL := initL }) } }, call := none, warm := [], steps := #[], byCall := #[] }, ["ok"])
+  | "gstate" =>
+    match m.d.bst.grid with
+    | some (_, g) =>
+      pure (m, [s!"outer {showTracker g.tr}", s!"inner {showTracker g.inner}",
+                s!"grid ptr={g.ptr} direction={showOpt toString g.dirCalc} tapeLeft={g.tape.length}"])
+    | none => pure (m, ["err:no-grid-backend"])
   | "lstep" => do
     let dur ← pRat; let r ← pRes
     pure ({ m with steps := m.steps.push (r, dur) }, [])
